@@ -62,6 +62,8 @@ class MethodTask(T.Task):
     def setup(self, I):
         d = [z3.Int(f"a{i}") for i in range(10)]
         I.assumptions += [z3.And(x >= 48, x <= 57) for x in d]
+        for x in d:
+            I.domains[x.decl().name()] = list(range(48, 58))
         return {"a": SStr(d)}
 
     def algo(self):
